@@ -494,6 +494,9 @@ def harnesses():
     H['detect'] = R.Harness('detect', scen_detect, load_sym, load_real)
     H['detect'].required_goals = ('ife', 'raw', 'specific',
                                   'early-decision')
+    H['detect-rel'] = R.Harness('detect-rel', scen_detect, load_sym,
+                                load_real)
+    H['detect-rel'].required_goals = ('raw', 'specific')
     H['detect-file'] = R.Harness('detect-file', scen_detect_file, load_sym,
                                  load_real)
     H['detect-file'].required_goals = ('ife', 'raw', 'specific')
